@@ -80,6 +80,60 @@ func (g *dbGen) end(commit bool) {
 		g.add("rb:w")
 	}
 	g.writer = false
+	if g.r.Chance(1, 5) {
+		g.deadOps("w")
+	}
+}
+
+// deadOps uses the handle (and the cursors) of a transaction that has ended:
+// everything must report a closed transaction and change nothing.
+func (g *dbGen) deadOps(tx string) {
+	r := g.r
+	for n := 1 + r.Intn(3); n > 0; n-- {
+		path := "."
+		if len(g.buckets) > 1 && r.Bool() {
+			path = g.buckets[1+r.Intn(len(g.buckets)-1)]
+		}
+		switch r.Intn(16) {
+		case 0:
+			g.add("p:%s:%s:%s:01", tx, path, g.key())
+		case 1:
+			g.add("g:%s:%s:%s", tx, path, g.key())
+		case 2:
+			g.add("d:%s:%s:%s", tx, path, g.key())
+		case 3:
+			g.add("cb:%s:%s:%s", tx, path, g.name())
+		case 4:
+			g.add("xb:%s:%s:%s", tx, path, g.name())
+		case 5:
+			g.add("fe:%s:%s", tx, path)
+		case 6:
+			g.add("fes:%s:%s:1", tx, path)
+		case 7:
+			g.add("wr:%s:%s", tx, path)
+		case 8:
+			g.ncur++
+			g.add("cu:%s:c%d:.", tx, g.ncur)
+			g.add("%s:c%d", []string{"F", "L", "N", "P", "D", "cbk"}[r.Intn(6)], g.ncur)
+		case 9:
+			if g.ncur > 0 {
+				g.add("%s:c%d", []string{"F", "L", "N", "P", "D", "cbk"}[r.Intn(6)], 1+r.Intn(g.ncur))
+			}
+		case 10:
+			g.add("sb:%s:%d:10", tx, g.nextBlk)
+			g.nextBlk++
+		case 11:
+			g.add("%s:%s:1", []string{"hb", "fk", "fh", "hbs", "fhs"}[r.Intn(5)], tx)
+		case 12:
+			g.add("fr:%s:1:0:1", tx)
+		case 13:
+			g.add("pr:%s:%d", tx, g.maxFile)
+		case 14:
+			g.add("bp:%s", tx)
+		default:
+			g.add("%s:%s", []string{"co", "rb"}[r.Intn(2)], tx)
+		}
+	}
 }
 
 // walk emits one cursor walk on tx (writer when w).
@@ -88,6 +142,9 @@ func (g *dbGen) walk(tx string, view []string, w bool) {
 	c := fmt.Sprintf("c%d", g.ncur)
 	p := g.path(view)
 	g.add("cu:%s:%s:%s", tx, c, p)
+	if g.r.Chance(1, 10) {
+		g.add("cbk:%s", c)
+	}
 	for seg := 1 + g.r.Intn(3); seg > 0; seg-- {
 		fwd := g.r.Chance(3, 5)
 		if fwd {
@@ -173,7 +230,16 @@ func (g *dbGen) writerOp() {
 			g.add("xb:w:.:%s", g.name())
 		}
 	case c < 16:
-		g.add("fe:w:%s", g.path(g.wBkts))
+		switch r.Intn(4) {
+		case 0:
+			g.add("fes:w:%s:%d", g.path(g.wBkts), r.Intn(4))
+		case 1:
+			g.add("feb:w:%s:%d", g.wBkts[r.Intn(len(g.wBkts))], r.Intn(3))
+		case 2:
+			g.add("wr:w:%s", g.path(g.wBkts))
+		default:
+			g.add("fe:w:%s", g.path(g.wBkts))
+		}
 	case c < 18:
 		g.walk("w", g.wBkts, true)
 	case c < 20:
@@ -229,6 +295,22 @@ func (g *dbGen) blockRead(tx string) {
 		}
 		return
 	}
+	if r.Chance(1, 8) {
+		var parts []string
+		for k := 1 + r.Intn(3); k > 0; k-- {
+			b := g.nextBlk
+			if len(g.blocks) > 0 && r.Chance(5, 6) {
+				b = g.blocks[r.Intn(len(g.blocks))]
+			}
+			parts = append(parts, fmt.Sprintf("%d", b))
+		}
+		g.add("%s:%s:%s", []string{"hbs", "fhs"}[r.Intn(2)], tx, strings.Join(parts, "+"))
+		return
+	}
+	if r.Chance(1, 20) {
+		g.add("bp:%s", tx)
+		return
+	}
 	switch r.Intn(6) {
 	case 0:
 		g.add("hb:%s:%d", tx, id)
@@ -258,7 +340,16 @@ func (g *dbGen) readerOp(tx string) {
 	case c < 3:
 		g.add("g:%s:%s:%s", tx, g.path(g.buckets), g.key())
 	case c < 5:
-		g.add("fe:%s:%s", tx, g.path(g.buckets))
+		switch g.r.Intn(4) {
+		case 0:
+			g.add("fes:%s:%s:%d", tx, g.path(g.buckets), g.r.Intn(4))
+		case 1:
+			g.add("feb:%s:%s:%d", tx, g.buckets[g.r.Intn(len(g.buckets))], g.r.Intn(3))
+		case 2:
+			g.add("wr:%s:%s", tx, g.path(g.buckets))
+		default:
+			g.add("fe:%s:%s", tx, g.path(g.buckets))
+		}
 	case c < 7:
 		g.walk(tx, g.buckets, false)
 	case c < 8:
@@ -293,6 +384,9 @@ func (g *dbGen) steps(n int) {
 					} else {
 						g.add("rb:%s", id)
 						g.readers[id] = false
+						if r.Chance(1, 5) {
+							g.deadOps(id)
+						}
 					}
 				}
 			}
@@ -302,7 +396,7 @@ func (g *dbGen) steps(n int) {
 			}
 		case c < 37:
 			g.end(true)
-			g.add("ro")
+			g.add("%s", g.reopenOp("ro"))
 			g.readers = map[string]bool{}
 		case c < 38:
 			if !g.writer && len(g.blocks) > 1 {
@@ -314,6 +408,21 @@ func (g *dbGen) steps(n int) {
 			g.add("da")
 		}
 	}
+}
+
+// reopenOp: half of the reopens (and crash restarts) come back with another
+// block-file limit, cache limit and, rarely, another network.
+func (g *dbGen) reopenOp(op string) string {
+	r := g.r
+	if r.Bool() {
+		return op
+	}
+	net := int64(0xd9b4bef9)
+	if r.Chance(1, 6) {
+		net = r.Pick(7, 0xd9b4bef9+1)
+	}
+	g.maxFile = pickMaxFile(r)
+	return fmt.Sprintf("%s:%d:%d:%d", op, g.maxFile, pickMaxCache(r), net)
 }
 
 func (g *dbGen) line(maxCache int) string {
@@ -359,6 +468,9 @@ func genBlocks(r *core.Rand) (string, bool) {
 		var lens []int
 		for b := 1 + r.Intn(4); b > 0; b-- {
 			id, n := g.nextBlk, 1+r.Intn(150)
+			if r.Chance(1, 5) {
+				n = int(r.Pick(79, 80, 81)) // around the header size
+			}
 			if len(edge) > 0 {
 				n, edge = edge[0], edge[1:]
 				if n < 1 {
@@ -404,12 +516,17 @@ func genBlocks(r *core.Rand) (string, bool) {
 		case 0:
 			g.add("fl")
 		case 1:
-			g.add("ro")
+			if op := g.reopenOp("ro"); op != "ro" {
+				g.add("%s", op)
+				simExact = false
+			} else {
+				g.add("ro")
+			}
 		case 2:
-			g.add("cp")
+			g.add("%s", g.reopenOp("cp"))
 			simExact = false
 		case 3:
-			g.add("cps")
+			g.add("%s", g.reopenOp("cps"))
 			simExact = false
 		case 4:
 			simExact = false
@@ -549,5 +666,54 @@ func genImageFamily(r *core.Rand, emit func(class string, line string)) {
 			ops := append(append([]string{fmt.Sprintf("%s:%s:%d", op, kind, n)}, body...), "tx", "da")
 			emit("image-"+op+"-"+kind, fmt.Sprintf("C05 db %d %d %s", g.maxFile, maxCache, strings.Join(ops, " ")))
 		}
+	}
+}
+
+// genLru: more block files than read handles are kept open (maxOpenFiles = 25):
+// one block per file, every file read, early ones read again; also with the
+// n-th read-only open failing.
+func genLru(r *core.Rand, emit func(class string, line string)) {
+	nfiles := int(r.Pick(24, 25, 26, 27, 30))
+	var ops []string
+	ops = append(ops, "bw:w")
+	for i := 1; i <= nfiles+1; i++ {
+		ops = append(ops, fmt.Sprintf("sb:w:%d:40", i))
+	}
+	ops = append(ops, "co:w", "wc")
+	reads := []string{"br:r"}
+	for i := 1; i <= nfiles; i++ {
+		reads = append(reads, fmt.Sprintf("fk:r:%d", i))
+		if r.Chance(1, 4) {
+			reads = append(reads, fmt.Sprintf("fk:r:%d", 1+r.Intn(i)))
+		}
+	}
+	for k := 0; k < 6; k++ {
+		reads = append(reads, fmt.Sprintf("fr:r:%d:1:3", 1+r.Intn(nfiles)))
+	}
+	reads = append(reads, "rb:r")
+	tail := []string{"bw:w", fmt.Sprintf("pr:w:%d", 60*int(r.Range(1, 20))), "co:w", "br:r", "fk:r:1",
+		fmt.Sprintf("fk:r:%d", nfiles), fmt.Sprintf("fk:r:%d", nfiles+1), "rb:r", "da"}
+	for _, n := range []int{0, 1, 25, 26, 27} {
+		all := append([]string{}, ops...)
+		if n > 0 {
+			all = append(all, fmt.Sprintf("ft:open:%d", n))
+		}
+		all = append(append(append(all, reads...), "fc"), tail...)
+		emit("lru", "C05 db 60 100000000 "+strings.Join(all, " "))
+	}
+}
+
+// genFlushBoundary: the cache holds exactly one user key and the write-cursor
+// row when the second commit decides whether to flush; the cache limit sits one
+// below / at / one above the decision value, and a crash restart shows which
+// commits had been flushed.
+func genFlushBoundary(r *core.Rand, emit func(class string, line string)) {
+	a, b := 1+r.Intn(3), r.Intn(4)
+	total := (72 + 4 + a + b) + (72 + 4 + 14 + 12)
+	t := total * 3 / 2
+	for _, mc := range []int{t - 1, t, t + 1} {
+		ops := []string{"bw:w", fmt.Sprintf("p:w:.:%s:%s", hx(r.Bytes(a)), hx(r.Bytes(b))), "co:w",
+			"bw:w", "p:w:.:7a7a:01", "co:w", "cp", "da", "bw:w", "p:w:.:7a7b:02", "co:w", "cps", "da"}
+		emit("flush-boundary", fmt.Sprintf("C05 db 1000 %d %s", mc, strings.Join(ops, " ")))
 	}
 }
